@@ -55,6 +55,11 @@ def _ilp_cases(tier, rng):
             s = [ac.P_UNI5, ac.P_IND1, ac.P_PSE5, ac.P_UNI1, ac.P_EXT][k % 5]
             for src in (("pulp", "cplex_noopt") if k <= 1 else ()) + ("pulp_pruned", "cplex_opt", "optim1"):
                 out.append({"D": D, "sch": list(s), "naming": "ints", "src": src})
+    cyc_sch = [ac.P_PSE5, ac.P_UNI5, ([0, 10, 5, 0, 10, 5], [4, 4, 0, 4, 4, 0], 10), ([0, 4, 2, 0, 0, 0], [1, 1, 0, 0, 0, 0], 4)]
+    for k in range(12 if tier == "quick" else 60):
+        D = ac.cyclic_dataset(rng, 3, 4 if tier == "quick" else 5)
+        for src in ("pulp_pruned", "cplex_opt", "optim1"):
+            out.append({"D": D, "sch": list(cyc_sch[k % len(cyc_sch)]), "naming": "ints", "src": src})
     return out
 
 
@@ -62,6 +67,14 @@ def stages(tier, rng, only=None):
     out = [ac.stage("grid3x2", PID, lambda: _cases(grids.datasets(3, 2), rng), _nt),
            Stage("ilp_rows", "Trace_ILP", ilprun.run_ilp, lambda: _ilp_cases(tier, rng), lambda r: r["n"] >= 3,
                  ilprun.init, post=ilprun.flatten, chunk=200)]
+    ncyc = 120 if tier == "quick" else 1500
+    cyc_sch = SCHEMES + [([0, 10, 5, 0, 10, 5], [4, 4, 0, 4, 4, 0], 10), ([0, 4, 2, 0, 0, 0], [1, 1, 0, 0, 0, 0], 4)]
+    out.append(ac.stage("cycles", PID, lambda: _cases(
+        [ac.cyclic_dataset(rng, 3, 5, incomplete=k % 3 == 2) for k in range(ncyc)], rng, schemes=cyc_sch), _nt))
+    out.append(ac.stage("reuse_after_mutation", PID, lambda: ac.reuse_mutate_cases(
+        grids.datasets(3, 2)[::4] + [ac.cyclic_dataset(rng, 3, 5) for _ in range(ncyc // 2)], EXACT, SCHEMES, rng)
+        + ac.reuse_mutate_cases([ac.cyclic_dataset(rng, 3, 5) for _ in range(ncyc // 3)],
+                                ["Exact(opt)", "Exact(noopt)"], SCHEMES, rng, env="standin"), _nt))
     if tier == "quick":
         out.append(ac.stage("random", PID, lambda: _cases([ac.random_dataset(rng, 6, 5, nmin=3) for _ in range(150)],
                                                           rng, schemes=SCHEMES + ac.grid_sample(rng, 6)), _nt))
